@@ -31,6 +31,10 @@ def Regime.batchSize : Regime → Nat
 
 structure FLink (F : Type) where
   core : Conn
+  /-- `local_ip` / `label`: an opaque token of the uplink's source address.  The label is
+  `format!("{host}:{port} via {ip}")` with the receiver host / port fixed for the life of the process, so
+  equality of labels is equality of addresses; only `apply_connection_changes` (`Sys.Ev.reload`) reads it. -/
+  addr : Nat := 0
   lastKeepaliveSent : Option Nat := none
   -- stall guard private state
   stallGated : Bool := false
@@ -68,6 +72,10 @@ variable {F : Type} [Scalar F]
 def FLink.newRegistering (connId now : Nat) : FLink F :=
   { core := { connId := connId }, rtt := RttTracker.new, bitrate := Bitrate.new now,
     graceDeadline := now + Conn.STARTUP_GRACE_MS, qualMult := Rtt.one }
+
+/-- `connect_uplink`: a fresh `new_registering` record for the uplink with source address `addr`. -/
+def FLink.newUplink (connId addr now : Nat) : FLink F :=
+  { (FLink.newRegistering connId now : FLink F) with addr := addr }
 
 /-- The selection view of a link. -/
 def FLink.toSLink (l : FLink F) : SLink F :=
